@@ -178,12 +178,19 @@ theorem seqKind_inv {k : EvKind} (h : seqKind k = true) : ∃ t start, k = .visi
 theorem seq_cases {t : Sk} (h : t.seq = true) : t = .done ∨ (t.isVisit = true ∧ seqKind (.visit t [] false none) = true) := by
   cases t <;> simp [Sk.seq, Sk.isVisit, seqKind] at h ⊢ <;> exact h
 
-/-- visits still to come -/
+mutual
+/-- visits still to come (a fan-out state: its own two handler invocations, its branches, one unit per branch for the
+join, and what follows) -/
 def visits : Sk → Nat
   | .task _ r => visits r + 1
   | .step r => visits r + 1
   | .wait r => visits r + 1
+  | .par _ brs r => brVisits brs + visits r + 2
   | _ => 0
+def brVisits : Br → Nat
+  | .nil => 0
+  | .cons b bs => visits b + 1 + brVisits bs
+end
 
 def todoOf : EvKind → Sk
   | .visit t _ _ _ => t
@@ -196,12 +203,18 @@ the replies waiting to be delivered -/
 def mu (c : Cfg) : Nat :=
   (c.evq.map evW).sum + 3 * c.timers.length + (c.rpq.filter (fun r => !r.unacked)).length
 
+mutual
 /-- Task visits still to come -/
 def tasksIn : Sk → Nat
   | .task _ r => tasksIn r + 1
   | .step r => tasksIn r
   | .wait r => tasksIn r
+  | .par _ brs r => brTasks brs + tasksIn r
   | _ => 0
+def brTasks : Br → Nat
+  | .nil => 0
+  | .cons b bs => tasksIn b + brTasks bs
+end
 
 /-- requests sent plus Task visits the events in the queue still have before them -/
 def load (c : Cfg) : Nat := c.sent.length + (c.evq.map (fun e => tasksIn (todoOf e.kind))).sum
